@@ -203,6 +203,12 @@ def cases_of(item):
             for m in MODES_LITE:
                 yield mk([[[name, desc, seq, 0]]], m, [nl], prefix)
                 yield mk([[[name, desc, seq, 0], ["t2", desc, "ACCAK", 0]]], m, [nl], prefix)
+    elif fam == "dupname":  # the same accession twice (e.g. a protein that is also in a contaminant file)
+        _, first, lmax = item
+        for second in seqs("ACK", lmax):
+            for m in MODES_LITE:
+                yield mk([[["t1", "", first, 0], ["t1", "other form", second, 0]]], m)
+                yield mk([[["t1", "", first, 0]], [["t1", "", second, 0], ["t2", "", "ACCAK", 0]]], m)
     elif fam == "wrap":
         _, n, modes = item
         for pat in PATTERNS:
@@ -213,9 +219,33 @@ def cases_of(item):
                     yield mk([[["t1", "", seq, width], ["t2", "", "AACCK", 0]], [["t3", "", seq[::-1], width]]], m)
 
 
+INTERIOR = "ACDEFGHILMNPQSTVWY"
+
+
+def history_cases(j):
+    """Sequences of calls in ONE process.  Item j uses peptide-interior lengths no other item uses (12+j and 40+j), so
+    whatever per-length state an implementation keeps is first touched by the first call of the sequence."""
+    def seq(n):
+        body = (INTERIOR * (n // len(INTERIOR) + 1))[:n]
+        return "M" + body + "K" + "A" + body[::-1][: n] + "R" + "GG"
+
+    a, b = seq(12 + j), seq(40 + j)
+    shuffle0, shuffle1, rev = (False, 0, True), (False, 1, False), (True, None, True)
+    yield [mk([[["t1", "", a, 0]]], m) for m in (shuffle0, rev, shuffle1, rev)]
+    yield [mk([[["t1", "", b, 0], ["t2", "", "ACCAK", 0]]], m) for m in (rev, shuffle0, rev)]
+
+
 def worker(item):
     acc = Acc()
     d = str(worker_scratch().sub("c18"))
+    if item[0] == "history":
+        for calls in history_cases(item[1]):
+            for step, case in enumerate(calls):
+                case = dict(case, history_item=item[1], step=step)
+                h = check_case(case, acc, d)
+                acc.case(key=hash(json.dumps(case)), nontrivial=True, outcome=h, sample=case if step == 1 and item[1] == 0 else None)
+                acc.count("history")
+        return acc
     for case in cases_of(item):
         nt = nontrivial(case)
         h = check_case(case, acc, d)
@@ -245,6 +275,10 @@ def run(ctx):
         items.append(("format", s))
     for n in b["wrap"]:
         items.append(("wrap", n, MODES_FULL))
+    for first in seqs("ACK", 4 if ctx.quick else 5, 1):
+        items.append(("dupname", first, 4 if ctx.quick else 5))
+    # call histories in one process (shuffle then reverse and vice versa); first so that the pool's processes are fresh
+    items = [("history", j) for j in range(24)] + items
     ctx.pmap(worker, items, chunksize=1)
     ctx.exhaustive = True
     ctx.info["bound"] = b
@@ -259,5 +293,12 @@ def run(ctx):
 def replay(case):
     acc = Acc()
     with Scratch("c18replay") as s:
+        if "history_item" in case:  # replay the whole call sequence up to and including the recorded step
+            for calls in history_cases(case["history_item"]):
+                if calls[0]["files"] == case["files"]:
+                    for step, c in enumerate(calls[: case["step"] + 1]):
+                        a = Acc()
+                        check_case(dict(c, history_item=case["history_item"], step=step), a, str(s.path))
+                    return a.violations
         check_case(case, acc, str(s.path))
     return acc.violations
